@@ -7,4 +7,7 @@ go run ./cmd/mkbind bind/zz_bind.go github.com/go-fed/activity/streams \
    /repo/astool/activitystreams.jsonld /repo/astool/security-v1.jsonld /repo/astool/toot.jsonld /repo/astool/forgefed.jsonld || exit 1
 go build -trimpath -o bin/verif ./cmd/verif || exit 1
 go build -trimpath -o bin/verifs ./cmd/verifs || exit 1
+# pre-build the race-instrumented test binary and the overlay build (warm caches)
+go test -race -count=1 -run XXX ./racetest/ > /dev/null 2>&1
+go run ./cmd/mkoverlay /repo "$(pwd)/.overlay" && go build -tags verifoverlay -overlay .overlay/overlay.json -o bin/verift ./cmd/verift
 echo setup-ok
